@@ -33,6 +33,7 @@ type vhsAct struct {
 	Field string          `json:"field,omitempty"`
 	Path  string          `json:"path,omitempty"`
 	NV    json.RawMessage `json:"nv,omitempty"`
+	Strip bool            `json:"strip,omitempty"`
 }
 
 type vhsStep struct {
@@ -192,7 +193,7 @@ func vhsInfoVia(path string, i *Info) (*Info, error) {
 }
 
 // decode a served chain info after changing one field but not the embedded hash
-func vhsTamper(sch *crypto.Scheme, path string, orig *Info, v vhsInfoV, field string, nv json.RawMessage) (accepted bool, detail string) {
+func vhsTamper(sch *crypto.Scheme, path string, orig *Info, v vhsInfoV, field string, nv json.RawMessage, strip bool) (accepted bool, detail string) {
 	t := v
 	switch field {
 	case "period":
@@ -230,6 +231,9 @@ func vhsTamper(sch *crypto.Scheme, path string, orig *Info, v vhsInfoV, field st
 		case "id":
 			m["beacon_id"] = t.ID
 		}
+		if strip {
+			delete(m, "chain_hash")
+		}
 		b2, _ := json.Marshal(m)
 		j := new(Info)
 		err = json.Unmarshal(b2, j)
@@ -248,6 +252,9 @@ func vhsTamper(sch *crypto.Scheme, path string, orig *Info, v vhsInfoV, field st
 			p.GroupHash = ti.GenesisSeed
 		case "id":
 			p.Metadata = &drand.Metadata{BeaconID: t.ID}
+		}
+		if strip {
+			p.Hash = nil
 		}
 		if path == "proto" {
 			_, err := InfoFromProto(p)
@@ -325,7 +332,7 @@ func TestVerifHashes(t *testing.T) {
 							ev["pch"] = vhsHex(j.Hash())
 						}
 					case "tamper":
-						ev["accepted"], ev["detail"] = vhsTamper(sch, st.a.Path, i, st.iv, st.a.Field, st.a.NV)
+						ev["accepted"], ev["detail"] = vhsTamper(sch, st.a.Path, i, st.iv, st.a.Field, st.a.NV, st.a.Strip)
 					}
 				} else {
 					g := vhsGroup(sch, st.gv)
